@@ -199,7 +199,7 @@ class RecSelector(UTxOSelector):
 
 def prepare(case):
     utxos = [mk_utxo(u) for u in case['utxos']]
-    ctx = Ctx(case['pp'], utxos)
+    ctx = long_lived(Ctx, case['pp'], utxos)
     b = TransactionBuilder(ctx)
 
     def s_explicit():
